@@ -85,11 +85,13 @@ def allowed_single_step(x):
             break
         val = unquote(m.group(2))
         out.add(val)                        # absolute target
-        try:
-            out.add(urljoin(x, val))        # relative target
-        except ValueError:
-            pass
-        out.add("https://" + val)           # youtube-style scheme-less target
+        if val.startswith("/"):
+            try:
+                out.add(urljoin(x, val))    # relative target: joined to the input, nothing else
+            except ValueError:
+                pass
+        else:
+            out.add("https://" + val)       # youtube-style scheme-less target
         pos = m.start() + 1
     return out
 
@@ -215,7 +217,7 @@ for _pre in ["https://bc.marfeelcache.com/amp/", "http://bc.marfeel.com/", "bc.m
     for _tail in ["", "www.site.com/x", "bc.marfeel.com/final.org/p", "site.com/?u=/rel"]:
         CACHE_URLS.append(_pre + _tail)
 YOUTUBE_URLS = []
-for _q in ["q=example.com%2Fx", "q=http%3A%2F%2Fexample.com", "q=", "v=abc&q=example.org", "event=video&q=%2Frel", "redir_token=x&q=https%3A%2F%2Fa.b%2F%3Fq%3Dinner",
+for _q in ["q=%2Fwatch%3Fv%3Dabc", "q=%2F%2Ftwitch.tv%2Fx", "next=/rel&q=x.org", "q=example.com%2Fx", "q=http%3A%2F%2Fexample.com", "q=", "v=abc&q=example.org", "event=video&q=%2Frel", "redir_token=x&q=https%3A%2F%2Fa.b%2F%3Fq%3Dinner",
            "q=youtube.com%2Fredirect%3Fq%3Dfinal.org", "q=www.youtube.com%2Fredirect%3Fq%3Dwww.youtube.com%2Fredirect%3Fq%3Dx.org"]:
     for _h in ["https://www.youtube.com/redirect?", "youtube.com/redirect?", "https://www.youtube.com/url?", "https://www.google.com/url?", "https://x.com/redirect/?",
                "https://x.com/search?"]:
